@@ -85,6 +85,14 @@ type interpreter struct {
 	lastPanicAt string
 	inStdInit   bool
 	pendingMsg  *noteRec
+	fdInts      map[*Term]*fdIntInfo
+	infoMemo    map[int]varInfo
+	canonMemo   map[int]*Term
+	domains     map[int]int
+	fe          *fastEvaluator
+	dbgCount    int
+	liftCache   map[string]string
+	lifting     int
 	known       map[int]uint64
 	knownMemo   map[int]*Term
 }
@@ -150,21 +158,22 @@ type Stats struct {
 
 // Explorer coordinates workers over a shared stack of seeds.
 type Explorer struct {
-	prog    *ssa.Program
-	pkg     *ssa.Package
-	fn      *ssa.Function
-	cfg     Config
-	mu      sync.Mutex
-	cond    *sync.Cond
-	stack   []seed
-	active  int
-	stop    bool
-	stats   Stats
-	viols   []Violation
-	samples []PathResult
-	start   time.Time
-	initPkgs []*ssa.Package
+	prog      *ssa.Program
+	pkg       *ssa.Package
+	fn        *ssa.Function
+	cfg       Config
+	mu        sync.Mutex
+	cond      *sync.Cond
+	stack     []seed
+	active    int
+	stop      bool
+	stats     Stats
+	viols     []Violation
+	samples   []PathResult
+	start     time.Time
+	initPkgs  []*ssa.Package
 	funcsSeen map[string]bool
+	liftCache sync.Map // pure-function results shared by all workers
 }
 
 func NewExplorer(prog *ssa.Program, pkg *ssa.Package, cfg Config) (*Explorer, error) {
@@ -299,17 +308,17 @@ func (ex *Explorer) worker(id int) {
 
 func (ex *Explorer) newInterpreter(id int) *interpreter {
 	i := &interpreter{
-		prog:     ex.prog,
-		globals:  make(map[*ssa.Global]*value),
-		sizes:    &types.StdSizes{WordSize: 8, MaxAlign: 8},
-		ex:       ex,
-		id:       id,
-		maxSteps: ex.cfg.MaxSteps,
-		maxDepth: ex.cfg.MaxDepth,
-		trace:    ex.cfg.Trace,
-		replace:  map[string]*ssa.Function{},
-		cutAt:    map[string]bool{},
-		pools:    map[*value]*poolState{},
+		prog:      ex.prog,
+		globals:   make(map[*ssa.Global]*value),
+		sizes:     &types.StdSizes{WordSize: 8, MaxAlign: 8},
+		ex:        ex,
+		id:        id,
+		maxSteps:  ex.cfg.MaxSteps,
+		maxDepth:  ex.cfg.MaxDepth,
+		trace:     ex.cfg.Trace,
+		replace:   map[string]*ssa.Function{},
+		cutAt:     map[string]bool{},
+		pools:     map[*value]*poolState{},
 		funcsSeen: map[string]bool{},
 	}
 	if i.maxSteps == 0 {
@@ -425,6 +434,12 @@ func (i *interpreter) runPath(s seed) (res PathResult) {
 	i.tokClock = 0
 	i.known = nil
 	i.knownMemo = nil
+	i.fdInts = nil
+	i.lifting = 0
+	i.infoMemo = nil
+	i.canonMemo = nil
+	i.domains = map[int]int{}
+	i.fe = nil
 
 	defer func() {
 		i.rollback()
@@ -492,6 +507,10 @@ func (i *interpreter) evalTerm(t *Term) uint64 {
 	return Eval(t, i.model, i.evalMemo)
 }
 
+func (i *interpreter) resetEval() {
+	i.fe = nil
+}
+
 func (i *interpreter) setModel(m []uint64) {
 	i.model = m
 	i.evalMemo = map[int]uint64{}
@@ -513,7 +532,7 @@ func (i *interpreter) branch(c *Term) bool {
 }
 
 func (i *interpreter) branchV(c *Term, hint uint64) bool {
-	c = i.reduce(c)
+	c = i.canon1(i.reduce(c))
 	if c.op == OpTrue {
 		return true
 	}
@@ -692,6 +711,11 @@ func (i *interpreter) assert(id string, v value, msg string) {
 		}
 	case sym:
 		i.assertQueries++
+		ct := i.canon1(i.reduce(c.t))
+		if ct.op == OpTrue {
+			return
+		}
+		c = sym{c.k, ct}
 		q := append(i.pcCopy(), i.ts.Not(c.t))
 		r, m := i.solver.Check(i.ts.vars, q)
 		i.solver.LogStandalone(i.ts.vars, q, fmt.Sprintf("assert %s expect=%d", id, r))
